@@ -10,7 +10,7 @@ import time
 import z3
 
 from .program import Program, Unsupported
-from .state import (PAYLOAD_VT, VT, Alloc, CatchFrame, Concretize, FnPtrV, Frame, PathEnd, Ptr, State, ThreadFrame)
+from .state import (PAYLOAD_VT, VT, Alloc, CatchFrame, Concretize, FnPtrV, Frame, PathEnd, Ptr, ScriptFrame, State, ThreadFrame)
 
 M64 = (1 << 64) - 1
 
@@ -1000,6 +1000,18 @@ class Interp(object):
     def finish_call(self, st, dest, target, ret_blob):
         """control returns to the frame now on top (a Frame or a CatchFrame)"""
         top = st.frames[-1]
+        if isinstance(top, ScriptFrame):
+            if top.pending:
+                fnid, args = top.pending.pop(0)
+                self.call_fn(st, fnid, args, None, None)
+                return
+            st.frames.pop()
+            if top.dest is not None and top.final is not None:
+                self.write_place_blob(st, top.dest, top.final)
+            if top.target is None:
+                raise PathEnd("engine-error", "script summary without target")
+            self.goto(st, top.target)
+            return
         if isinstance(top, ThreadFrame):
             st.frames.pop()
             st.thread = top.prev_thread
@@ -1041,6 +1053,9 @@ class Interp(object):
             if not st.frames:
                 raise PathEnd("unwound")
             fr = st.frames[-1]
+            if isinstance(fr, ScriptFrame):
+                st.frames.pop()
+                continue
             if isinstance(fr, ThreadFrame):
                 # a panic ends the other thread; the spawner observes it at join (not modelled further)
                 raise PathEnd("unwound", "panic escaped a modelled second thread")
@@ -1108,6 +1123,9 @@ class Interp(object):
         if dest is not None and size:
             st.write_scalar(dest.alloc, dest.off, size, val)
         if target is None:
+            if st.frames and not isinstance(st.frames[-1], Frame):
+                self.finish_call(st, None, None, None)
+                return
             raise PathEnd("engine-error", "summary returned into diverging call")
         self.goto(st, target)
 
@@ -1115,8 +1133,16 @@ class Interp(object):
         if dest is not None:
             self.write_place_blob(st, dest, blob)
         if target is None:
+            if st.frames and not isinstance(st.frames[-1], Frame):
+                self.finish_call(st, None, None, None)
+                return
             raise PathEnd("engine-error", "summary returned into diverging call")
         self.goto(st, target)
+
+    def run_script(self, st, calls, final, dest, target):
+        """summary helper: perform calls [(fnid, args)] in order, then return `final` (a blob) to dest"""
+        st.frames.append(ScriptFrame(list(calls), final, dest, target))
+        self.finish_call(st, None, None, None)
 
     # =====================================================================================
     # stepping
